@@ -156,6 +156,9 @@ def run(ctx):
         if d.family == 'ugrid' and (n // len(gen.FAMILIES)) % 2 == 0:
             # the mesh topology dummy variable written with a length-one dimension, as some models do (`int mesh(one)`)
             d = gen.ugrid(rng, w=2, h=2, invalid=False, mesh_var_dim=True)
+        if d.family == 'cf2d' and (n // len(gen.FAMILIES)) % 2 == 0:
+            # a curvilinear grid whose longitude is stored (x, y) while its latitude is stored (y, x)
+            d = gen.cf2d(rng, ny=3, nx=4, bounds=True, holes='none', invalid=False, lon_transposed=True)
         for label, ds in near_misses(rng, d):
             f = features_of(ds)
             flit = features_literal(f)
@@ -222,6 +225,20 @@ def run(ctx):
             ctx.report('correspondence', f'model Registry.guess = {mres}, implementation chose {got} (per-class answers {specs})',
                        case, found_input=False)
 
+    # ---------------- a single point picked out of a CF grid (isel on both surface dimensions): latitude and longitude are
+    # scalar coordinates that still carry their units - no grid is left, and nothing may claim the dataset as one
+    for fam in ('cf1d', 'cf1d', 'cf2d'):
+        dpt = gen.any_dataset(rng, fam, **({} if fam == 'cf1d' else {'invalid': False, 'holes': 'none'}))
+        gd = dpt.spec['kinds']['face']
+        picked = dpt.ds.isel({g: 0 for g in gd})
+        case = {'dataset': dpt.spec['label'], 'variant': 'one point picked with isel on both surface dimensions'}
+        ctx.case((dpt.spec['label'], 'picked point'), True)
+        ctx.count('scalar_coordinates')
+        with warnings.catch_warnings():
+            warnings.simplefilter('ignore')
+            r = attempt(get_dataset_convention, picked)
+        if r[0] == 'ok' and r[1] is not None and r[1].__name__ in ('CFGrid1D', 'CFGrid2D'):
+            ctx.report('property', f'a dataset whose latitude and longitude are scalar coordinates is taken for a {r[1].__name__} grid', case)
     # ---------------- (A3) the accessor and the detection function agree, also on datasets derived from one that was opened
     # from a file and already given a convention (xarray keeps encoding['source'] on the derived datasets)
     import os
@@ -254,6 +271,17 @@ def run(ctx):
                     want = attempt(get_dataset_convention, fresh)
                     acc = attempt(lambda: type(fresh.ems))
                 if want[0] != 'ok':
+                    continue
+                # what is detected depends on the content, not on the file the dataset once came from
+                with warnings.catch_warnings():
+                    warnings.simplefilter('ignore')
+                    plain_copy = ds.copy(deep=True)
+                    plain_copy.encoding = {}
+                    want_plain = attempt(get_dataset_convention, plain_copy)
+                if want_plain[0] == 'ok' and want_plain[1] is not want[1]:
+                    ctx.report('property', f'derived from an opened file this dataset is detected as '
+                               f'{getattr(want[1], "__name__", None)}, the same content with no file behind it as '
+                               f'{getattr(want_plain[1], "__name__", None)}', case)
                     continue
                 if want[1] is None:
                     if acc[0] == 'ok':
